@@ -214,7 +214,7 @@ func cmdCheck(args []string) {
 			}
 		}
 	}
-	timeout := 5000
+	timeout := 15000
 	thorough := *tier == "thorough"
 	if thorough {
 		timeout = 60000
@@ -239,6 +239,13 @@ func cmdCheck(args []string) {
 	tSolve := time.Now()
 	dischargeAll(all, scratch, timeout, 14, thorough)
 	solveS := time.Since(tSolve).Seconds()
+	if os.Getenv("GOVC_SLOW") != "" {
+		for _, o := range all {
+			if o.Millis > 1200 && o.Expect == "unsat" {
+				fmt.Fprintf(os.Stderr, "slow: %6dms %-8s %s (%s)\n", o.Millis, o.Status, o.Name, o.Solver)
+			}
+		}
+	}
 	if os.Getenv("GOVC_TIMING") != "" {
 		nc := 0
 		for _, o := range all {
